@@ -519,6 +519,48 @@ def export_histories(tier):
     return bfs(ExportHistories(), 3 if tier == "thorough" else 2, budget_s=1500 if tier == "thorough" else 1500)
 
 
+# ------------------------------------------------------------------ E3: a public export while the key gets its kid
+def h_threads(ctx):
+    """One key object without a kid yet (native import): one call exports it as public, another gives it its first kid (ensure_kid, a key
+    set built around it, a key-set export, a signature through a set). Whatever the schedule, the public output has no private member."""
+    from .. import conc
+    from joserfc import jws
+    from joserfc.jwk import KeySet
+    kind = ctx.choose("key", ["P-256", "rsa1024", "Ed25519"])
+    jwk = scen.key(kind)
+    ndl = needles(jwk)
+    sig_alg = {"P-256": "ES256", "rsa1024": "RS256", "Ed25519": "EdDSA"}[kind]
+
+    def pub_op(name, f):
+        def run(sh):
+            return ("public", call(f, sh["key"]))
+        return (name, run)
+
+    def other(name, f):
+        def run(sh):
+            return ("other", call(f, sh["key"]))
+        return (name, run)
+    menu = [pub_op("as_dict(private=False)", lambda k: k.as_dict(private=False)), pub_op("KeySet([key]).as_dict(private=False)", lambda k: KeySet([k]).as_dict(private=False)),
+            pub_op("as_dict(private=False, kid=...)", lambda k: k.as_dict(private=False, kid="published")),
+            other("ensure_kid()", lambda k: k.ensure_kid()), other("KeySet([key])", lambda k: KeySet([k]) and None),
+            other("sign through a key set", lambda k: jws.serialize_compact({"alg": sig_alg}, b"x", KeySet([k]), algorithms=[sig_alg])),
+            other("thumbprint()", lambda k: k.thumbprint())]
+
+    def judge(name, o, sh):
+        kind_, r = o
+        if kind_ != "public":
+            return None
+        if not r.ok:
+            return ("a public export fails while another call gives the key its kid", f"{name}: {r.exc!r}")
+        bad = []
+        for path, m in jwk_private_members(r.value):
+            bad.append((f"a public export carries the private member {m!r} while another call gives the key its kid", f"{name}: at {path or '/'}"))
+        for m in leaks(r.value, ndl):
+            bad.append((f"a public export contains the octets of private parameter {m!r} while another call gives the key its kid", name))
+        return bad or None
+    return conc.pairs(ctx, menu, lambda: {"key": A.jkey(jwk, "pem")}, judge, thorough=config.thorough())
+
+
 _st = Part("needle-selftest", h_needle_selftest, split_depth=1)
 _pu = Part("public-only-keys", h_public_only, split_depth=2)
 _pu.single_bucket_ok = True
@@ -527,4 +569,5 @@ PARTS = [
     Part("outputs", h_outputs, split_depth=2, budget={"quick": 1200, "thorough": 1200}),
     _st, _pu,
     Part("export-histories", custom=export_histories, engine="E2"),
+    Part("thread-schedules", h_threads, bound={"quick": 1, "thorough": 2}, split_depth=2, budget={"quick": 2000, "thorough": 3000}, engine="E3"),
 ]
